@@ -9,12 +9,14 @@ mod mutate;
 mod params;
 mod rules;
 mod trace;
+mod vtxs;
 
 fn main() {
     let args = pv_core::Args::parse();
     match args.cmd.as_str() {
         "fixtures-selfcheck" => fx_selfcheck::run(&args),
         "phase1-trace" => trace::run(&args),
+        "validate-txs-trace" => vtxs::run(&args),
         other => pv_core::die(&format!("unknown sub-command {other}")),
     }
 }
